@@ -291,7 +291,8 @@ func spellings(s string) []string {
 }
 
 func byteNames(prefix, suffix string) []NameAtom {
-	var out []NameAtom
+	// (names that begin with a token character sorting before `*`: ! # $ % & ')
+	out := []NameAtom{{Value: "$Trace-Id"}, {Value: "!x-foo"}, {Value: "#h"}, {Value: "%p"}, {Value: "&a"}, {Value: "'q"}, {Value: "+z"}}
 	for b := 0; b < 256; b++ {
 		a := NameAtom{Value: prefix + string([]byte{byte(b)}) + suffix}
 		if !isTchar(byte(b)) {
